@@ -475,11 +475,27 @@ def mergeTargetG (sourcesCommitted : Bool) (commitOpstamp currentStamp : Nat) : 
   if Gen.MERGE_TARGET_BY_REGISTER = 1 then mergeTarget sourcesCommitted commitOpstamp currentStamp
   else currentStamp
 
+/-- a weaker staleness test (what the guard-off branch executes): only the FIRST source is
+looked up in the register -/
+def containsFirst (reg : List Entry) (ids : List Nat) : Bool :=
+  match ids with
+  | [] => true
+  | i :: _ => reg.any fun e => e.segId == i
+
 def containsAllG (reg : List Entry) (ids : List Nat) : Bool :=
-  if Gen.END_MERGE_REQUIRES_ALL_SOURCES = 1 then containsAll reg ids
-  else match ids with
-    | [] => true
-    | i :: _ => reg.any fun e => e.segId == i
+  if Gen.END_MERGE_REQUIRES_ALL_SOURCES = 1 then containsAll reg ids else containsFirst reg ids
+
+/-- `end_merge` with the first-source-only staleness test (counterexample only) -/
+def endMergeFirstOnly (st : State) (r : Running) : State :=
+  if r.epoch ≠ st.epoch then st
+  else
+    let m := r.merged.map (reconcile st)
+    if containsFirst st.uncommitted r.sources then
+      { st with uncommitted := swapIn st.uncommitted r.sources m }
+    else if containsFirst st.committed r.sources then
+      let c := swapIn st.committed r.sources m
+      { st with committed := c, published := c }
+    else st
 
 def reconcileG (st : State) (m : Entry) : Entry :=
   if Gen.END_MERGE_RECONCILES = 1 then reconcile st m else m
@@ -519,5 +535,51 @@ def Sys.stepG (s : Sys) : Ev → Sys
   | ev => s.step ev
 
 def Sys.runG (s : Sys) (evs : List Ev) : Sys := evs.foldl Sys.stepG s
+
+/-! ## Part 5 — any number of merges in flight
+
+`SysM` keeps a LIST of running merges: `startMerge` is always allowed (an explicit
+`IndexWriter::merge` does not look at the merge inventory, so two merges may even share sources),
+`endMerge i` ends the i-th of them. Everything else is the single-merge machine run with no merge
+in flight (`view none`), so the two machines cannot drift apart. -/
+
+structure SysM where
+  st : State
+  running : List Running
+  stamp : Nat
+  nextId : Nat
+
+inductive EvM
+  | addSeg (docs : List DocRec)
+  | delete (key : Nat)
+  | commit
+  | rollback
+  | deleteAll
+  | startMerge (ids : List Nat)
+  | endMerge (i : Nat)
+
+def EvM.toEv : EvM → Ev
+  | .addSeg d => .addSeg d
+  | .delete k => .delete k
+  | .commit => .commit
+  | .rollback => .rollback
+  | .deleteAll => .deleteAll
+  | .startMerge ids => .startMerge ids
+  | .endMerge _ => .endMerge
+
+def SysM.view (s : SysM) (r : Option Running) : Sys := ⟨s.st, r, s.stamp, s.nextId⟩
+
+def SysM.init : SysM := ⟨Sys.init.st, [], Sys.init.stamp, Sys.init.nextId⟩
+
+def SysM.step (s : SysM) : EvM → SysM
+  | .endMerge i =>
+    match s.running[i]? with
+    | none => s
+    | some r => { s with st := endMergeG s.st r, running := s.running.eraseIdx i }
+  | ev =>
+    let s1 := (s.view none).stepG ev.toEv
+    { st := s1.st, running := s.running ++ s1.running.toList, stamp := s1.stamp, nextId := s1.nextId }
+
+def SysM.run (s : SysM) (evs : List EvM) : SysM := evs.foldl SysM.step s
 
 end TantivyModel.Merge
